@@ -206,7 +206,7 @@ pub fn run_semantic(prop: &str, trace: &Trace, env: &Env, opts: &SemOpts) -> Run
                 last_slots.remove(&ev.actor);
                 last_text.remove(&ev.actor);
             }
-            Op::Checkpoint { .. } | Op::Nested { .. } => {}
+            Op::Checkpoint { .. } | Op::Nested { .. } | Op::SessionFormat => {}
             Op::SessionLang { lang } => {
                 if w.sessions.contains_key(&ev.actor) {
                     w.session_set_language(ev.actor, lang);
